@@ -15,6 +15,7 @@ from .specfns import SPEC
 
 TIMEOUT_MS = int(os.environ.get("PYVC_TIMEOUT_MS", "8000"))
 MAX_EXTERNAL = 4
+MAX_SECOND = 300   # thorough tier: obligations per function (case) that are re-checked by cvc5 / z3 4.8 (evenly spaced sample when there are more)
 MAX_FULL = 8       # obligations per function (case) that get the full third pass (retry at 4x budget, model search, second solvers)
 
 
@@ -499,7 +500,7 @@ def _verify(qual, repo, ctx, bound, second_solver, fast, case):
             others = []
             if fast:
                 pass
-            elif (res == "unknown" and n_ext < MAX_EXTERNAL) or (res == "unsat" and second_solver and backend != "closed"):
+            elif (res == "unknown" and n_ext < MAX_EXTERNAL) or (res == "unsat" and second_solver and backend != "closed" and oi % max(1, len(X.obls) // MAX_SECOND) == 0):
                 n_ext += res == "unknown"
                 others = external(ob)
                 if res == "unknown":
